@@ -71,7 +71,7 @@ chk("C15", "E-prod under memory monitors", PROD + " executed under a guard-page 
     "The asm! operand contract (an `in` register is decremented) is a compile-time obligation no execution-based monitor can see; not claimed.",
     "DESIGN.md 4/C15")
 chk("C16", "E-prod over the configuration lattice", "exhaustive enumeration of the feature-subset lattice (build) and transcript equality across configurations",
-    "All 16 subsets of {rand,serde,quickcheck,arbitrary} with std and the 4 subsets of {rand,serde} without std are built from the working tree; one deterministic transcript (radix conversions, roots, and a cross-section of all other operations) is produced in {std,no_std} x {release,debug-assertions} + all-features (+ the dev profile in thorough) and must be byte-identical and agree with refint; the complete text/radix space of C06 is additionally run in the no_std build.",
+    "All 16 subsets of {rand,serde,quickcheck,arbitrary} with std and the 4 subsets of {rand,serde} without std are built from the working tree; one deterministic transcript (radix conversions, roots, and a cross-section of all other operations) is produced in {std,no_std} x {release,debug-assertions} + all-features (+ the dev profile in thorough) and must be byte-identical and agree with refint; the complete text/radix space of C06 is additionally run in the no_std build, and the documented-failure set of C14 (must panic / must be None) in {std,no_std} x {release,debug-assertions}, so a failure behaviour that differs between configurations is reported.",
     "Only x86_64-linux is present: 32-bit digit code and non-x86 fallbacks cannot be built here.",
     "DESIGN.md 4/C16")
 chk("C17", "E-prod", PROD,
@@ -79,7 +79,7 @@ chk("C17", "E-prod", PROD,
     "Token sequences bounded in length; two formats (recorder, serde_json).",
     "DESIGN.md 4/C17")
 chk("C18", "E-hist over RNG streams", "exhaustive enumeration of RNG output streams (words from a 5-letter alphabet up to a length bound) fed to the real generators, result and words-consumed compared with the specification model",
-    "A StreamRng replays an explicit word list; every stream up to the length bound over {0,1,2^31,2^32-1,0x5555aaaa} is fed to gen_biguint/gen_bigint for every bit size 0..=130, gen_biguint_below / ranges / Uniform / RandomBits over the bound families; result and number of words consumed must equal the property's own model (first ceil(n/32) words, top word shifted down; first candidate below the bound); uniformity by exhaustive preimage counting for n <= 12.",
+    "A StreamRng replays an explicit word list, as a 32-bit-word generator and as a 64-bit-native generator (whole 64-bit units per request); every stream up to the length bound over {0,1,2^31,2^32-1,0x5555aaaa} is fed to gen_biguint/gen_bigint for every bit size 0..=130, gen_biguint_below / ranges / Uniform / RandomBits over the bound families; result and number of words consumed must equal the property's own model (first ceil(n/32) words, top word shifted down; first candidate below the bound); uniformity by exhaustive preimage counting for n <= 12.",
     "Streams bounded in length (then zeros, so rejection loops terminate); uniformity is exact counting for small widths, not statistics.",
     "DESIGN.md 4/C18")
 chk("C19", "E-prod", PROD,
@@ -87,7 +87,7 @@ chk("C19", "E-prod", PROD,
     "Pool and 5-letter alphabet values.",
     "DESIGN.md 4/C19")
 chk("C20", "E-prod", "exhaustive enumeration of the property's own finite quantifier (operand lengths) with a deterministic work counter in the real code",
-    "The MAC_WORK hook (sum of row lengths passed to the multiply-accumulate row routine) is read around one multiplication of fixed dense operands for every n in {256,...,16384} and every n in 33..=4096 (doubling ratio W(2n)/W(n) <= 3.5), W(4096) < 4096^2/4, and the unbalanced bank W(lx,ly) <= lx*ly; products are also checked against refint.",
+    "The MAC_WORK hook (sum of row lengths passed to the multiply-accumulate row routine) is read around one multiplication of fixed dense operands for every n in {256,...,16384} and every n in 33..=4096 (doubling ratio W(2n)/W(n) <= 3.5), W(4096) < 4096^2/4, and the unbalanced bank W(lx,ly) <= lx*ly; the same bounds for 17 multiplication forms (value/reference, *=, checked_mul, BigInt, squares, Product, operands with spare buffer capacity); products are also checked against refint.",
     "The counter counts digit multiplications in the row routine only (the property's definition of cost); thresholds carry >= 10% margin over the measured values.",
     "DESIGN.md 4/C20")
 
